@@ -106,6 +106,22 @@ func producers() []func() (produced, error) {
 			return ws.HTTPUpgrader{Negotiate: e.Negotiate}
 		}, "alpha", pmdOffer, pmdExpect),
 	}
+	// extension offers of every count 1..12 in one header line, all accepted (a value's number of
+	// commas may steer how the selected options are copied)
+	for n := 1; n <= 12; n++ {
+		n := n
+		out = append(out, func() (produced, error) {
+			var offers, exp []string
+			for i := 0; i < n; i++ {
+				offers = append(offers, fmt.Sprintf("ext%02d; p=%d", i, i))
+				exp = append(exp, fmt.Sprintf(` ext="ext%02d"{"p"="%d";}`, i, i))
+			}
+			u := ws.Upgrader{Extension: func(httphead.Option) bool { return true }}
+			h, err := runUpgrader(u, request("alpha", strings.Join(offers, ", "), 'p'))
+			hp := &h
+			return produced{name: fmt.Sprintf("Upgrader/Extension-selector/%d-offers", n), expect: `proto=""` + strings.Join(exp, ""), live: func() string { return snapHs(*hp) }}, err
+		})
+	}
 	// read buffers that are not a pool size class (the pool rounds them up) and header lines
 	// that are longer than the configured size but may still fit the real buffer
 	for _, rb := range []int{300, 1500, 5000} {
